@@ -251,9 +251,6 @@ example (P : Prims) (O : OutPrims) (fs : FS) (env : Env) :
 variables and `y` unbound: both fail with the same cause, the first at line 1, the second at line 2
 (the object stands after the newline of the other body). Every value layer. -/
 
-/-- strict variables: an unbound variable is an error -/
-def strictCfg : Cfg := { strict := true }
-
 /-- **C10 (counterexample to the duality without the one-line condition).** The two forms fail at different lines. -/
 theorem dual_lines_differ (P : Prims) (O : OutPrims) (fs : FS) :
     run P O strictCfg fs 1
